@@ -352,6 +352,8 @@ func onceRules(c *Ctx) {
 // closedGuards: C12.4 (beyond the atomic sections of E1).
 func closedGuards(c *Ctx) {
 	P := c.P
+	// a closed state that was observed is reported, not ignored
+	c.errPolarity("(*Buffer).Put", "(*Buffer).NewConsumer", "(*consumer).Get", "(*consumer).Commit", "(*Channel).Get", "(*Channel).Commit", "(*Buffer).get")
 	// Done() hands out the channel that Close closes
 	c.returnsField("(*Buffer).Done", "Buffer.done", "the channel observers wait on must be the one Close closes")
 	c.returnsField("(*consumer).Done", "consumer.done", "the channel observers wait on must be the one Close closes")
